@@ -257,6 +257,9 @@ func (f *Fixture) CheckBalances(where string, b *Book, minconfs []int32) {
 				f.Chain.Tip().Height, DescribeCoins(b.Coins(f.Chain)))
 		}
 	}
+	if f.PerAccount {
+		f.checkAccountBalances(where, b, minconfs, mat)
+	}
 	conf, unconf := b.RelevantTxs(f.Chain)
 	err := walletdb.View(f.W.Database(), func(tx walletdb.ReadTx) error {
 		tns := tx.ReadBucket([]byte("wtxmgr"))
@@ -360,3 +363,107 @@ func DescribeCoins(cs []*Coin) string {
 }
 
 var _ = time.Second
+
+// checkAccountBalances compares the per-account views of the same balance
+// (CalculateAccountBalances, AccountBalances, UnspentOutputs by policy) with
+// the book. Only for harnesses that neither lease nor lock outputs.
+func (f *Fixture) checkAccountBalances(where string, b *Book, minconfs []int32, mat int32) {
+	tip := f.Chain.Tip().Height
+	coins := b.Coins(f.Chain)
+	accts := map[uint32]bool{0: true}
+	for _, co := range coins {
+		accts[co.Own.Account] = true
+	}
+	var nums []uint32
+	for a := range accts {
+		nums = append(nums, a)
+	}
+	sort.Slice(nums, func(i, j int) bool { return nums[i] < nums[j] })
+	confsOf := func(co *Coin) int32 {
+		if co.Block == nil {
+			return 0
+		}
+		return tip - co.Block.Height + 1
+	}
+	for _, acct := range nums {
+		for _, mc := range minconfs {
+			var total, spendable, immature int64
+			ops := map[wire.OutPoint]int64{}
+			for _, co := range coins {
+				if co.SpentBy != nil || co.Own.Account != acct {
+					continue
+				}
+				confs := confsOf(co)
+				total += co.Value
+				if co.Coinbase && confs < mat {
+					immature += co.Value
+				} else if confs >= mc {
+					spendable += co.Value
+				}
+				if confs >= mc {
+					ops[co.OutPoint] = co.Value
+				}
+			}
+			got, err := f.W.CalculateAccountBalances(acct, mc)
+			if err != nil {
+				f.Violation("[%s] CalculateAccountBalances(%d, %d) failed: %v", where, acct, mc, err)
+			}
+			if int64(got.Total) != total || int64(got.Spendable) != spendable || int64(got.ImmatureReward) != immature {
+				f.Violation("[%s] CalculateAccountBalances(account %d, minconf %d) = total %d spendable %d immature %d, the harness ledger says %d / %d / %d (tip %d)\ncoins: %s",
+					where, acct, mc, int64(got.Total), int64(got.Spendable), int64(got.ImmatureReward), total, spendable, immature, tip, DescribeCoins(coins))
+			}
+			outs, err := f.W.UnspentOutputs(wallet.OutputSelectionPolicy{Account: acct, RequiredConfirmations: mc})
+			if err != nil {
+				f.Violation("[%s] UnspentOutputs(account %d, minconf %d) failed: %v", where, acct, mc, err)
+			}
+			seen := map[wire.OutPoint]bool{}
+			for _, o := range outs {
+				v, ok := ops[o.OutPoint]
+				if !ok {
+					f.Violation("[%s] UnspentOutputs(account %d, minconf %d) lists %v, which the ledger does not count as an unspent output of that account with enough confirmations", where, acct, mc, o.OutPoint)
+				}
+				if seen[o.OutPoint] {
+					f.Violation("[%s] UnspentOutputs(account %d, minconf %d) lists %v twice", where, acct, mc, o.OutPoint)
+				}
+				seen[o.OutPoint] = true
+				if o.Output.Value != v {
+					f.Violation("[%s] UnspentOutputs reports %v with value %d, it is %d", where, o.OutPoint, o.Output.Value, v)
+				}
+			}
+			if len(seen) != len(ops) {
+				f.Violation("[%s] UnspentOutputs(account %d, minconf %d) lists %d outputs, the ledger has %d", where, acct, mc, len(seen), len(ops))
+			}
+		}
+	}
+	// per scope: AccountBalances
+	for _, sc := range waddrmgr.DefaultKeyScopes {
+		for _, mc := range minconfs {
+			want := map[uint32]int64{}
+			for _, co := range coins {
+				if co.SpentBy != nil || co.Own.Scope != sc {
+					continue
+				}
+				confs := confsOf(co)
+				if confs < mc || (co.Coinbase && confs < mat) {
+					continue
+				}
+				want[co.Own.Account] += co.Value
+			}
+			res, err := f.W.AccountBalances(sc, mc)
+			if err != nil {
+				f.Violation("[%s] AccountBalances(%v, %d) failed: %v", where, sc, mc, err)
+			}
+			for _, r := range res {
+				if int64(r.AccountBalance) != want[r.AccountNumber] {
+					f.Violation("[%s] AccountBalances(%v, minconf %d): account %d has %d, the harness ledger says %d", where, sc, mc, r.AccountNumber, int64(r.AccountBalance), want[r.AccountNumber])
+				}
+				delete(want, r.AccountNumber)
+			}
+			for a, v := range want {
+				if v != 0 {
+					f.Violation("[%s] AccountBalances(%v, minconf %d) does not list account %d, which holds %d", where, sc, mc, a, v)
+				}
+			}
+		}
+	}
+}
